@@ -3,16 +3,17 @@ module verif
 go 1.24.0
 
 require (
+	github.com/golang-jwt/jwt/v5 v5.3.1
 	github.com/gorilla/websocket v1.5.0
 	github.com/jech/galene v0.0.0
 	github.com/pion/rtp v1.10.4
 	github.com/pion/sdp/v3 v3.0.19
 	github.com/pion/webrtc/v4 v4.2.17
+	golang.org/x/crypto v0.48.0
 )
 
 require (
 	github.com/at-wat/ebml-go v0.18.0 // indirect
-	github.com/golang-jwt/jwt/v5 v5.3.1 // indirect
 	github.com/google/uuid v1.6.0 // indirect
 	github.com/jech/cert v0.0.0-20240301122532-f491cf43a77d // indirect
 	github.com/jech/samplebuilder v0.0.0-20241027120643-76c654ae55e1 // indirect
@@ -30,7 +31,6 @@ require (
 	github.com/pion/transport/v4 v4.0.2 // indirect
 	github.com/pion/turn/v5 v5.0.12 // indirect
 	github.com/wlynxg/anet v0.0.5 // indirect
-	golang.org/x/crypto v0.48.0 // indirect
 	golang.org/x/net v0.50.0 // indirect
 	golang.org/x/sys v0.41.0 // indirect
 	golang.org/x/time v0.14.0 // indirect
